@@ -559,6 +559,31 @@ fn gen_layered(n: usize, r: &mut Rng) -> Vec<(u32, u32)> {
 }
 
 // ---------- manager histories ----------
+const KNOWN_REMOVE: &str = "remove-property-not-propagated";
+
+/// The stored witness of the known finding, replayed on the implementation every run:
+/// REMOVE of the declared measure property (GraphStore::remove_node_property) does not reach the
+/// hierarchy manager, so a usable index keeps answering with the removed value.
+fn replay_known_remove() -> KnownReplay {
+    let mut store = GraphStore::new();
+    let a = store.create_node("T");
+    let b = store.create_node("T");
+    store.create_edge(b, a, "IS_A").unwrap();
+    store.set_column_property(b, "units", PropertyValue::Integer(5));
+    let mgr = Arc::clone(&store.hierarchy_index);
+    mgr.create(&store, HierarchySpec::new("h", vec![EdgeType::new("IS_A")]).with_measure(None, "units", vec![RollupOp::Sum]))
+        .expect("create");
+    store.remove_node_property(b, "units");
+    let usable = mgr.usable_for_edge_type(&EdgeType::new("IS_A")).is_some();
+    let got = mgr.get("h").unwrap().read().unwrap().index.as_ref().and_then(|ix| ix.rollup_id(a, RollupOp::Sum));
+    let still = usable && got != Some(RollupValue::Int(0));
+    KnownReplay {
+        class: KNOWN_REMOVE.to_string(),
+        still_fails: still,
+        detail: format!("nodes a,b; b-[:IS_A]->a; b.units=5; index(sum units); remove_node_property(b,units): usable={usable}, rollup(a,sum)={got:?}, brute force Int(0)"),
+    }
+}
+
 fn run_mgr(out: &mut Out, seed: u64, c: u64, thorough: bool) {
     let idx_no = out.next_index();
     if !out.wants(idx_no) {
@@ -568,7 +593,10 @@ fn run_mgr(out: &mut Out, seed: u64, c: u64, thorough: bool) {
     let mut r = Rng::for_case(seed ^ 0x4D47, c);
     let n = r.range(2, if thorough { 24 } else { 12 }) as usize;
     let mut store = GraphStore::new();
-    let ids: Vec<NodeId> = (0..n).map(|_| store.create_node("T")).collect();
+    // a third of the histories restrict the measure to label M; the other nodes carry T only
+    let restricted = c % 3 == 1;
+    let has_m: Vec<bool> = (0..n).map(|_| !restricted || r.chance(2, 3)).collect();
+    let ids: Vec<NodeId> = (0..n).map(|i| store.create_node(if restricted && has_m[i] { "M" } else { "T" })).collect();
     let cover = EdgeType::new("IS_A");
     let shape = r.below(3);
     let e0 = match shape {
@@ -585,6 +613,7 @@ fn run_mgr(out: &mut Out, seed: u64, c: u64, thorough: bool) {
         let id = store.create_edge(ids[1], ids[0], "IS_A").unwrap();
         alive.push((id, 1, 0));
     }
+    // raw column values (whatever the label)
     let mut meas: BTreeMap<u32, i64> = BTreeMap::new();
     for i in 0..n as u32 {
         if let Some(v) = rand_val(&mut r) {
@@ -594,7 +623,8 @@ fn run_mgr(out: &mut Out, seed: u64, c: u64, thorough: bool) {
     }
     let ops = vec![RollupOp::Sum, RollupOp::Min, RollupOp::Max, RollupOp::Count];
     let mgr = Arc::clone(&store.hierarchy_index);
-    mgr.create(&store, HierarchySpec::new("h", vec![cover.clone()]).with_measure(None, "units", ops.clone()))
+    let label = if restricted { Some(samyama::graph::Label::new("M")) } else { None };
+    mgr.create(&store, HierarchySpec::new("h", vec![cover.clone()]).with_measure(label, "units", ops.clone()))
         .expect("create");
     let id_of = |i: u32| ids[i as usize].as_u64();
     let snapshot_edges = |store: &GraphStore| -> String {
@@ -603,17 +633,26 @@ fn run_mgr(out: &mut Out, seed: u64, c: u64, thorough: bool) {
     let snapshot_meas = |meas: &BTreeMap<u32, i64>| -> String {
         g_list(meas.iter().map(|(k, v)| format!("({}, Some {})", id_of(*k), g_z(*v as i128))))
     };
+    let g_elig = if restricted {
+        format!("(Some {})", g_list((0..n as u32).filter(|i| has_m[*i as usize]).map(|i| format!("{}", id_of(i)))))
+    } else {
+        "None".to_string()
+    };
     let g_edges0 = snapshot_edges(&store);
     let g_meas0 = snapshot_meas(&meas);
-    let mut human = format!("mgr n={n} edges={:?} measure={:?}", e0, meas);
+    let mut human = format!("mgr n={n} edges={:?} measure={:?} label-restricted={restricted} has_label={:?}", e0, meas, has_m);
     let mut bad: Option<String> = None;
+    let mut known_bad: Option<String> = None;
     let mut must_be_unusable = false;
     let mut saw_stale_then_rebuilt = false;
-    let mut observe = |store: &GraphStore,
-                       alive: &Vec<(EdgeId, u32, u32)>,
+    // values removed with REMOVE that the index (known finding) still holds: node -> stale value
+    let mut removed_pending: BTreeMap<u32, i64> = BTreeMap::new();
+    let mut observe = |alive: &Vec<(EdgeId, u32, u32)>,
                        meas: &BTreeMap<u32, i64>,
+                       removed_pending: &BTreeMap<u32, i64>,
                        must_be_unusable: bool,
                        bad: &mut Option<String>,
+                       known_bad: &mut Option<String>,
                        what: &str|
      -> String {
         let usable = mgr.usable_for_edge_type(&cover).is_some();
@@ -623,7 +662,10 @@ fn run_mgr(out: &mut Out, seed: u64, c: u64, thorough: bool) {
         let edges: Vec<(u32, u32)> = alive.iter().map(|&(_, c, p)| (c, p)).collect();
         let brute = Brute::new(n, &edges);
         let in_h: BTreeSet<u32> = edges.iter().flat_map(|&(c, p)| [c, p]).collect();
-        let m: Vec<Option<i64>> = (0..n as u32).map(|i| meas.get(&i).copied()).collect();
+        // the measure the property talks about: the current value of nodes carrying the label
+        let m: Vec<Option<i64>> = (0..n as u32).map(|i| if has_m[i as usize] { meas.get(&i).copied() } else { None }).collect();
+        // the same with the values the known finding leaves behind
+        let m_known: Vec<Option<i64>> = (0..n as u32).map(|i| removed_pending.get(&i).copied().or(m[i as usize])).collect();
         if must_be_unusable && usable && bad.is_none() {
             *bad = Some(format!("after {what}: index usable although the covering relation was written and not rebuilt"));
         }
@@ -634,18 +676,26 @@ fn run_mgr(out: &mut Out, seed: u64, c: u64, thorough: bool) {
                 if usable && bad.is_none() {
                     let want = if in_h.contains(&i) { Some(brute.rollup(i as usize, &m, *op)) } else { None };
                     if got != want {
-                        *bad = Some(format!("after {what}: usable index answers rollup({i},{op:?}) = {got:?}, brute force on the current graph {want:?}"));
+                        let want_known = if in_h.contains(&i) { Some(brute.rollup(i as usize, &m_known, *op)) } else { None };
+                        let msg = format!("after {what}: usable index answers rollup({i},{op:?}) = {got:?}, brute force on the current graph {want:?}");
+                        if !removed_pending.is_empty() && got == want_known {
+                            if known_bad.is_none() {
+                                *known_bad = Some(msg);
+                            }
+                        } else {
+                            *bad = Some(msg);
+                        }
                     }
                 }
             }
         }
         format!("({}, {})", g_bool(usable), g_list(rolls))
     };
-    let o0 = observe(&store, &alive, &meas, false, &mut bad, "create");
+    let o0 = observe(&alive, &meas, &removed_pending, false, &mut bad, &mut known_bad, "create");
     let mut hist: Vec<String> = Vec::new();
     let steps = r.range(3, if thorough { 16 } else { 9 });
     for _ in 0..steps {
-        let (h, what): (String, String) = match r.below(10) {
+        let (h, what): (String, String) = match r.below(12) {
             0 | 1 => {
                 // new covering edge child > parent in the hidden order keeps the relation acyclic
                 let ch = r.range(1, n as u64 - 1) as u32;
@@ -692,7 +742,25 @@ fn run_mgr(out: &mut Out, seed: u64, c: u64, thorough: bool) {
                         meas.remove(&a);
                     }
                 }
+                removed_pending.remove(&a);
                 (format!("HPropWrite true {} {}", id_of(a), g_ov(&v)), format!("set units on {a} to {v:?}"))
+            }
+            8 => {
+                // REMOVE n.units / REMOVE n.colour
+                let a = r.below(n as u64) as u32;
+                if r.chance(1, 4) {
+                    store.remove_node_property(ids[a as usize], "colour");
+                    (format!("HPropRemove false {}", id_of(a)), format!("remove colour on {a}"))
+                } else {
+                    store.remove_node_property(ids[a as usize], "units");
+                    if let Some(v) = meas.remove(&a) {
+                        if has_m[a as usize] && !removed_pending.contains_key(&a) {
+                            removed_pending.insert(a, v);
+                        }
+                    }
+                    out.count("mgr_measure_removed");
+                    (format!("HPropRemove true {}", id_of(a)), format!("remove units on {a}"))
+                }
             }
             _ => {
                 mgr.rebuild(&store, "h").expect("rebuild");
@@ -700,20 +768,25 @@ fn run_mgr(out: &mut Out, seed: u64, c: u64, thorough: bool) {
                     saw_stale_then_rebuilt = true;
                 }
                 must_be_unusable = false;
-                (format!("HRebuild {} {}", snapshot_edges(&store), snapshot_meas(&meas)), "rebuild".into())
+                removed_pending.clear();
+                (format!("HRebuild {} {} {}", snapshot_edges(&store), g_elig, snapshot_meas(&meas)), "rebuild".into())
             }
         };
         human.push_str(&format!("; {what}"));
-        let o = observe(&store, &alive, &meas, must_be_unusable, &mut bad, &what);
+        let o = observe(&alive, &meas, &removed_pending, must_be_unusable, &mut bad, &mut known_bad, &what);
         hist.push(format!("({}, {})", h, o));
     }
     out.count("mgr_histories");
+    if restricted {
+        out.count("mgr_label_restricted");
+    }
     if saw_stale_then_rebuilt {
         out.count("mgr_stale_then_rebuilt");
     }
     let g = format!(
-        "CMgr {} {} {} {} {}",
+        "CMgr {} {} {} {} {} {}",
         g_edges0,
+        g_elig,
         g_meas0,
         g_list(ops.iter().map(|o| g_op(*o).to_string())),
         o0,
@@ -722,6 +795,9 @@ fn run_mgr(out: &mut Out, seed: u64, c: u64, thorough: bool) {
     let i = out.case(g, human.clone(), true);
     if let Some(b) = bad {
         out.fail(i, &human, &b, None);
+    } else if let Some(b) = known_bad {
+        out.count("known_remove_cases");
+        out.fail(i, &human, &b, Some(KNOWN_REMOVE));
     }
 }
 
@@ -829,5 +905,6 @@ fn main() {
     for k in 0..nm {
         run_mgr(&mut out, seed, k, args.thorough);
     }
+    out.known.push(replay_known_remove());
     out.finish();
 }
